@@ -17,7 +17,7 @@ import vlib
 import progs
 from gen import shapes, stmts
 
-THEOREM_MODULES = ["Yarel.Props.C13", "Yarel.Props.C12", "Yarel.Props.C04", "Yarel.Props.StackGuardThm", "Yarel.Props.FnsTie.NoPanic"]
+THEOREM_MODULES = ["Yarel.Props.C13", "Yarel.Props.C12", "Yarel.Props.C04", "Yarel.Props.StackGuardThm", "Yarel.Props.FnsTie.NoPanic", "Yarel.Props.FnsTie.StackTie"]
 REQUIRED_THEOREMS = ["no_fault", "unhashable_rejected_unchanged", "verify_sound", "guard_free_equiv", "vm_binary_op_never_panics", "op_total",
                      "vm_equal_never_panics", "vm_logical_not_never_panics", "vm_negate_never_panics"]
 if os.path.exists(os.path.join(vlib.LEAN_DIR, "Yarel", "Props", "SitesInventory.lean")):
@@ -59,6 +59,7 @@ BINOPS = ["+", "-", "*", "/", "%", "&", "|", "^", "<<", ">>", "<", "<=", ">", ">
 # puts the result there and resumes the caller ("calls are atomic"); the last Return of a called fiber hands the result to the caller
 THEOREM_MODULES.append("Yarel.Props.FnsTie.CallReturn")
 REQUIRED_THEOREMS += ['call_wrong_arity', 'call_depth_limit']
+REQUIRED_THEOREMS += ['stack_peek_checked', 'stack_push_checked', 'stack_pop_checked', 'stack_truncate_checked']
 
 
 def sweep_programs():
